@@ -1,5 +1,5 @@
 """C09 -- no interleaving crashes or deadlocks the scheduler (engine E2)."""
-from .. import e2prop
+from .. import common, e2prop
 from ..e2 import scenarios as SC
 
 PID = "C09"
@@ -131,10 +131,82 @@ def collect(scn, res):
                 rs.add("+".join(parts))
 
 
+# ---------------------------------------------------------------------------
+# outputs that nobody reads any more (`redo ... 2>&1 | head -1`, a closed pager): writing to them fails with EPIPE; a redo
+# process may stop, but it never aborts (exit 101), least of all the one that has jobs to record
+
+def closed_output_cases():
+    """(name, files, setup commands, command, which of stdout/stderr are reader-less pipes, statuses that are fine)"""
+    direct = 'redo-ifchange s\necho x > "$1"\n'            # writes $1 directly: redo reports that on stderr while recording
+    both = 'redo-ifchange s\necho a\necho b > "$3"\n'       # stdout and $3: likewise
+    ok = 'redo-ifchange s\necho "$1"\n'
+    files = {"s": "0\n", "m.do": direct, "b.do": both, "t.do": ok, "u.do": ok}
+    return [
+        ("builder-reports-direct-write-to-dead-stderr", files, [], ["redo", "--no-log", "m"], ("err",), None),
+        ("builder-reports-two-outputs-to-dead-stderr", files, [], ["redo", "--no-log", "b"], ("err",), None),
+        ("builder-j2-dead-stderr", files, [], ["redo", "--no-log", "-j2", "m", "t", "u"], ("err",), None),
+        ("build-with-log-capture-dead-stderr", files, [], ["redo", "t", "u"], ("err",), None),
+        ("redo-targets-dead-stdout", files, [["redo", "--no-log", "t", "u"]], ["redo-targets"], ("out",), None),
+        ("redo-sources-dead-stdout", files, [["redo", "--no-log", "t", "u"]], ["redo-sources"], ("out",), None),
+        ("redo-ood-dead-stdout", files, [["redo", "--no-log", "t", "u"], ["sh", "-c", "echo 1 > s"]], ["redo-ood"], ("out",), None),
+        ("redo-whichdo-dead-stdout", files, [], ["redo-whichdo", "t"], ("out",), None),
+        ("redo-log-dead-stdout", files, [["redo", "t"]], ["redo-log", "t"], ("out", "err"), None),
+    ]
+
+
+def closed_outputs(verdict):
+    import os
+    import shutil
+    import subprocess
+    bindir = common.build_subject()
+    root = common.scratch_root() / "c09pipe"
+    root.mkdir(parents=True, exist_ok=True)
+    n = 0
+    for name, files, setup, cmd, dead, _ok in closed_output_cases():
+        d = root / name
+        (d / "p").mkdir(parents=True)
+        (d / "home").mkdir()
+        try:
+            for fn, text in files.items():
+                (d / "p" / fn).write_text(text)
+            env = common.base_env(bindir, d / "home")
+            for sc in setup:
+                subprocess.run(sc, cwd=str(d / "p"), env=env, stdin=subprocess.DEVNULL, stdout=subprocess.DEVNULL,
+                               stderr=subprocess.DEVNULL, timeout=60)
+            r, w = os.pipe()
+            os.close(r)        # a pipe without a reader: every write to it fails with EPIPE
+            try:
+                p = subprocess.run(cmd, cwd=str(d / "p"), env=env, stdin=subprocess.DEVNULL,
+                                   stdout=w if "out" in dead else subprocess.DEVNULL,
+                                   stderr=w if "err" in dead else subprocess.PIPE, timeout=60)
+            finally:
+                os.close(w)
+            n += 1
+            err = (p.stderr or b"").decode("utf-8", "replace") if "err" not in dead else ""
+            if p.returncode == 101 or "panicked" in err:
+                verdict.report({"kind": "abort-when-output-has-no-reader", "case": name},
+                               {"engine": "E1-closed-outputs", "command": cmd, "dead": list(dead), "rc": p.returncode, "stderr": err[-400:]})
+            elif p.returncode < 0:
+                verdict.report({"kind": "killed-by-signal-when-output-has-no-reader", "case": name, "signal": -p.returncode},
+                               {"engine": "E1-closed-outputs", "command": cmd, "dead": list(dead)})
+        finally:
+            shutil.rmtree(d, ignore_errors=True)
+    return {"cases": [c[0] for c in closed_output_cases()], "commands_run": n}
+
+
 def main(tier):
+    v = common.Verdict(PID)
+    cov_pipe = closed_outputs(v)
+    rc_pipe = v.finish()
+    rc = main_e2(tier, cov_pipe, v.count)
+    return 1 if (rc or rc_pipe) else 0
+
+
+def main_e2(tier, cov_pipe, n_pipe):
     return e2prop.run_property(
         PID, tier, scenarios(tier), oracle, collect=collect,
-        extra=lambda: {"distinct_ready_sets_at_wakeups": {k: sorted(v) for k, v in READY.items()}},
+        extra=lambda: {"distinct_ready_sets_at_wakeups": {k: sorted(v) for k, v in READY.items()},
+                       "closed_outputs": cov_pipe, "closed_outputs_violations": n_pipe},
         rule="stateless exploration of the real process tree under a controlled scheduler: every schedule with <= b "
              "deviations (quick b<=1, thorough b<=2) from the default policy, at the granularity of the scenario's visible "
              "gates (event-loop wake-ups with the exact set of ready descriptors, token/cheat pipe reads and writes, lock "
